@@ -659,6 +659,9 @@ func (multi *MultiEpoch) StreamBlocks(params *old_faithful_grpc.StreamBlocksRequ
 		block, err := multi.GetBlock(ctx, &old_faithful_grpc.BlockRequest{Slot: slot})
 		if err != nil {
 			if status.Code(err) == codes.NotFound {
+				if slot == math.MaxUint64 {
+					break // see below
+				}
 				continue // is this the right thing to do?
 			}
 			return err
@@ -668,6 +671,9 @@ func (multi *MultiEpoch) StreamBlocks(params *old_faithful_grpc.StreamBlocksRequ
 			if err := ser.Send(block); err != nil {
 				return err
 			}
+		}
+		if slot == math.MaxUint64 {
+			break // the range ends at the last possible slot: slot++ would wrap around to 0 and stream from there
 		}
 	}
 
